@@ -69,54 +69,51 @@ class Disp:
             return "(" + (" && " if isinstance(t.op, ast.And) else " || ").join(self.atom(v) for v in t.values) + ")"
         self.fail(t, "condition outside the atom table")
 
-    def term(self, stmts) -> str | None:
-        """Lean String term for the name of the returned closure; None = falls through"""
-        out = None
+    def term(self, stmts, k=None) -> str | None:
+        """Lean String term for the name of the returned closure; `k` = the term of what follows this statement list
+        (None: nothing follows)"""
         stmts = list(stmts)
-        for i, st in enumerate(stmts):
-            rest = stmts[i + 1:]
-            if isinstance(st, ast.Expr) and isinstance(st.value, ast.Constant):
-                continue
-            if isinstance(st, (ast.Import, ast.ImportFrom)):
-                continue
-            if isinstance(st, ast.FunctionDef):
-                body = [s for s in st.body if not (isinstance(s, ast.Expr) and isinstance(s.value, ast.Constant))]
-                self.defs[st.name] = "; ".join(" ".join(_u(s).split()) for s in body)
-                continue
-            if isinstance(st, (ast.Assign, ast.AnnAssign)):
-                tg = st.targets[0] if isinstance(st, ast.Assign) else st.target
-                if isinstance(tg, ast.Name) and st.value is not None:
-                    self.locals[tg.id] = _u(st.value)
-                continue
-            if isinstance(st, ast.For):
-                # loops that fill tables (no returns inside)
-                if any(isinstance(n, ast.Return) for n in ast.walk(st)):
-                    self.fail(st, "return inside a loop")
-                continue
-            if isinstance(st, ast.Return):
-                v = st.value
-                if isinstance(v, ast.Name) and v.id in self.defs:
-                    return json.dumps(v.id)
-                if isinstance(v, ast.Call) and isinstance(v.func, ast.Name) and v.func.id.startswith("_compile_vectorized_"):
-                    return json.dumps("->" + v.func.id)
-                self.fail(st, "return of something that is not a nested function")
-            if isinstance(st, ast.If):
-                c = self.atom(st.test)
-                saved = dict(self.locals)
-                a = self.term(st.body)
-                self.locals = dict(saved)
-                b = self.term(st.orelse) if st.orelse else None
-                self.locals = dict(saved)
-                r = self.term(rest)
-                if a is None and b is None:
-                    return r
-                a2 = a if a is not None else r
-                b2 = b if b is not None else r
-                if a2 is None or b2 is None:
-                    self.fail(st, "a branch neither returns nor is followed by a return")
-                return f"(if {c} then {a2} else {b2})"
-            self.fail(st, "unsupported statement")
-        return out
+        if not stmts:
+            return k
+        st, rest = stmts[0], stmts[1:]
+        if isinstance(st, ast.Expr) and isinstance(st.value, ast.Constant):
+            return self.term(rest, k)
+        if isinstance(st, (ast.Import, ast.ImportFrom)):
+            return self.term(rest, k)
+        if isinstance(st, ast.FunctionDef):
+            body = [s for s in st.body if not (isinstance(s, ast.Expr) and isinstance(s.value, ast.Constant))]
+            self.defs[st.name] = "; ".join(" ".join(_u(s).split()) for s in body)
+            return self.term(rest, k)
+        if isinstance(st, (ast.Assign, ast.AnnAssign)):
+            tg = st.targets[0] if isinstance(st, ast.Assign) else st.target
+            if isinstance(tg, ast.Name) and st.value is not None:
+                self.locals[tg.id] = _u(st.value)
+            return self.term(rest, k)
+        if isinstance(st, ast.For):
+            if any(isinstance(n, ast.Return) for n in ast.walk(st)):
+                self.fail(st, "return inside a loop")
+            return self.term(rest, k)
+        if isinstance(st, ast.Return):
+            v = st.value
+            if isinstance(v, ast.Name) and v.id in self.defs:
+                return json.dumps(v.id)
+            if isinstance(v, ast.Call) and isinstance(v.func, ast.Name) and v.func.id.startswith("_compile_vectorized_"):
+                return json.dumps("->" + v.func.id)
+            self.fail(st, "return of something that is not a nested function")
+        if isinstance(st, ast.If):
+            c = self.atom(st.test)
+            saved = dict(self.locals)
+            sdefs = dict(self.defs)
+            r = self.term(rest, k)
+            self.locals = dict(saved)
+            a = self.term(st.body, r)
+            self.locals = dict(saved)
+            b = self.term(st.orelse, r) if st.orelse else r
+            self.locals = dict(saved)
+            if a is None or b is None:
+                self.fail(st, "a branch neither returns nor is followed by a return")
+            return a if a == b else f"(if {c} then {a} else {b})"
+        self.fail(st, "unsupported statement")
 
 
 def gen_closure_paths(cmp_: ast.AST, ad: ast.AST) -> str:
